@@ -93,6 +93,9 @@ int vh_case(uint64_t id, int tier)
         char pat0[5][40];
         int failed = 0;
         decode(id, tier, &c);
+        /* one case runs up to 2^residues x 2^T alignments */
+        vh_case_timeout = 900;
+        alarm(900);
         for(j = 0; j < c.k; j++){
                 for(i = 0; c.s[j][i]; i++){
                         pos_seq[total] = j;
